@@ -111,7 +111,27 @@ fn assert_send_sync<T: Send + Sync>() {}
 '''
 
 
+_ports_given = set()
+
+
 def free_port():
+    """A loopback port below the ephemeral range (so that no client socket of a neighbouring driver can take it between
+    this probe and the driver's bind), not handed out before in this process."""
+    import random
+    rnd = random.Random()
+    for _ in range(200):
+        port = rnd.randrange(20000, 32000)
+        if port in _ports_given:
+            continue
+        s = socket.socket()
+        try:
+            s.bind(("127.0.0.1", port))
+        except OSError:
+            continue
+        finally:
+            s.close()
+        _ports_given.add(port)
+        return port
     s = socket.socket()
     s.bind(("127.0.0.1", 0))
     port = s.getsockname()[1]
